@@ -82,6 +82,106 @@ theorem inside_can_leave (s : Occ) : (0 < s.readers → (step s .exitR).isSome =
     (0 < s.writers → (step s .exitW).isSome = true) := by
   constructor <;> intro h <;> simp [step, h]
 
+/-! ### 2b. no deadlock: what an operation does while it holds a scope's lock (regenerated on every run) -/
+
+/-- the calls the env methods make while the scope's mutex is held, as audited: `Addr` (read lock, released by a deferred
+unlock) asks the external lookup and goes on to the PARENT scope; `String` formats under its lock. Nothing else calls
+anything while holding the lock - in particular no method locks a second scope other than the parent, and none re-enters
+a method of the same scope. -/
+def auditedHeldCalls : List (String × String × Bool) := [
+  ("Addr", "external:Get", true), ("Addr", "other:v.Addr", true), ("Addr", "other:v.CanAddr", true),
+  ("Addr", "pkg:fmt.Errorf", true), ("Addr", "up:Addr", true),
+  ("String", "other:buffer.WriteString", false), ("String", "pkg:fmt.Sprintf", false)]
+
+/-- Every call made under a scope's lock is one of the audited ones: the only nested lock acquisition is Addr's, from a
+scope to its parent. -/
+theorem locks_nest_towards_the_root_only :
+    Gen.heldCalls.all (fun c => auditedHeldCalls.contains c) = true := by decide
+
+/-- A region that is closed by an explicit unlock (no `defer`) makes no call that could panic and leave the lock held:
+only String's formatting calls (fmt recovers panics of what it formats). -/
+theorem explicit_regions_cannot_leak_the_lock :
+    (Gen.heldCalls.filter (fun c => !c.2.2)).all
+      (fun c => c.2.1 == "other:buffer.WriteString" || c.2.1 == "pkg:fmt.Sprintf") = true := by decide
+
+/-- goroutines as far as deadlock is concerned: the depths (distance from the root) of the scopes whose lock a goroutine
+holds, and the depth of the scope whose lock it is waiting for -/
+structure Th where
+  holds : List Nat
+  waits : Option Nat
+
+/-- the discipline established above: a goroutine that waits while holding locks waits for a scope strictly nearer to the root
+than every scope it holds (it holds a scope and asks for the parent) -/
+def Ordered (t : Th) : Prop := ∀ d, t.waits = some d → ∀ h ∈ t.holds, d < h
+
+/-- `t` waits for a lock that `u` holds -/
+def WaitsFor (t u : Th) : Prop := ∃ d, t.waits = some d ∧ d ∈ u.holds
+
+/-- t0 waits for t1 waits for t2 ... -/
+inductive WaitChain : List Th → Prop where
+  | single (a : Th) : WaitChain [a]
+  | cons {a b : Th} {ts : List Th} : WaitsFor a b → WaitChain (b :: ts) → WaitChain (a :: b :: ts)
+
+theorem WaitChain.head_tail {a b : Th} {ts : List Th} (h : WaitChain (a :: b :: ts)) : WaitsFor a b ∧ WaitChain (b :: ts) := by
+  cases h with
+  | cons h1 h2 => exact ⟨h1, h2⟩
+
+theorem wait_descends {t u : Th} (hu : Ordered u) (h : WaitsFor t u) {d d' : Nat} (ht : t.waits = some d)
+    (hw : u.waits = some d') : d' < d := by
+  obtain ⟨e, he, hm⟩ := h
+  rw [ht] at he; cases he
+  exact hu d' hw d hm
+
+/-- along a chain of goroutines each waiting for the next, the depth waited for never grows -/
+theorem chain_descends : ∀ (ts : List Th) (a : Th), WaitChain (a :: ts) → (∀ t ∈ a :: ts, Ordered t) →
+    ∀ z, (a :: ts).getLast? = some z → ∀ dz, z.waits = some dz → ∀ da, a.waits = some da → dz ≤ da := by
+  intro ts
+  induction ts with
+  | nil =>
+    intro a _ _ z hz dz hdz da hda
+    simp at hz; subst hz; rw [hdz] at hda; cases hda; exact Nat.le_refl _
+  | cons b ts ih =>
+    intro a hc ho z hz dz hdz da hda
+    have hab : WaitsFor a b := hc.head_tail.1
+    have hc' : WaitChain (b :: ts) := hc.head_tail.2
+    have ho' : ∀ t ∈ b :: ts, Ordered t := fun t ht => ho t (List.mem_cons_of_mem _ ht)
+    have hz' : (b :: ts).getLast? = some z := by simpa [List.getLast?_cons_cons] using hz
+    -- b waits as well: either it is the last one (which waits) or it waits for its successor
+    have hbw : ∃ db, b.waits = some db := by
+      cases ts with
+      | nil => simp at hz'; subst hz'; exact ⟨dz, hdz⟩
+      | cons c ts' =>
+        obtain ⟨e, he, _⟩ := hc'.head_tail.1
+        exact ⟨e, he⟩
+    obtain ⟨db, hdb⟩ := hbw
+    have h1 := ih b hc' ho' z hz' dz hdz db hdb
+    have h2 := wait_descends (ho b (by simp)) hab hda hdb
+    omega
+
+/-- NO DEADLOCK among goroutines that follow the discipline: there is no cycle t0 -> t1 -> ... -> tn -> t0 of goroutines
+each waiting for a lock the next one holds, whatever their number and whatever locks they hold. -/
+theorem no_wait_cycle (a : Th) (ts : List Th) (hc : WaitChain (a :: ts)) (ho : ∀ t ∈ a :: ts, Ordered t)
+    (z : Th) (hz : (a :: ts).getLast? = some z) (hclose : WaitsFor z a) : False := by
+  obtain ⟨dz, hdz, hma⟩ := hclose
+  -- a waits too
+  have haw : ∃ da, a.waits = some da := by
+    cases ts with
+    | nil => simp at hz; subst hz; exact ⟨dz, hdz⟩
+    | cons b ts' =>
+      obtain ⟨e, he, _⟩ := hc.head_tail.1
+      exact ⟨e, he⟩
+  obtain ⟨da, hda⟩ := haw
+  have h1 := chain_descends ts a hc ho z hz dz hdz da hda
+  have h2 : da < dz := ho a (by simp) da hda dz hma
+  omega
+
+/-- ... while without the discipline two goroutines deadlock: one holds a scope and asks for its child, the other holds the
+child and asks for the parent (the shape a path lookup that keeps the parent locked would have against Addr) -/
+example : WaitsFor ⟨[1], some 2⟩ ⟨[2], some 1⟩ ∧ WaitsFor ⟨[2], some 1⟩ ⟨[1], some 2⟩ ∧ ¬ Ordered ⟨[1], some 2⟩ := by
+  refine ⟨⟨2, rfl, by simp⟩, ⟨1, rfl, by simp⟩, ?_⟩
+  intro h; have := h 2 rfl 1 (by simp); omega
+example : Ordered ⟨[3, 2], some 1⟩ := by intro d hd h hh; simp at hd; subst hd; simp at hh; omega
+
 /-! ### 3. region-atomic operations: every interleaving is a sequential order -/
 open EnvApi
 
